@@ -614,15 +614,8 @@ def run(ctx, prog):
     ctx.rule('C01-D7', 'plain numpy accumulation: every reduction/product feeding an accumulator held in self.precision operates on '
                        'values cast to self.precision (otherwise per-batch partial sums are rounded/overflow in the traces\' dtype and '
                        'the result depends on the split)')
-    from .. import inline as _inl
     from .. import universe as _uni
-    _dm = prog.need_class(*_uni.DIST_BASE)
-    for _m in ('update', 'compute'):
-        _f = _dm.methods.get(_m)
-        if _f is not None:
-            _h = _inl.inline_in_place(prog, _f, skip={'_check', '_update', '_initialize', '_compute', '_accumulate', '_initialize_accumulators'})
-            if _h:
-                ctx.note(f'{_f.key}: helpers inlined before analysis: {_h}')
+    _uni.inline_base_entry_points(ctx, prog)
     us, concrete = units(prog)
     all_acc = set()
     total_stores = 0
